@@ -21,6 +21,7 @@ TCheck == Ev("link-version-checked") /\ Check(P) /\ (Trace[l].stamp_ok = Reuse)
 TReuse == Ev("link-reuse") /\ pc[P] = "run" /\ UNCHANGED vars
 TBuildStart == Ev("link-build-start") /\ BuildStart(P)
 TBuildDone == Ev("link-build-done") /\ BuildDone(P)
+TRename == Ev("link-renamed") /\ Rename(P)
 TStamp == Ev("link-stamp-written") /\ StampDone(P)
 TRun == Ev("link-run") /\ RunLinker(P)
 TRunDone == Ev("link-run-done") /\ pc[P] = "ran" /\ UNCHANGED vars
@@ -30,7 +31,7 @@ Silent == /\ l <= Len(Trace)
           /\ UNCHANGED l
           /\ \E p \in Procs : Start(p) \/ Patch(p) \/ StampStart(p) \/ Kill(p)
 
-TraceNext == TLock \/ TCheck \/ TReuse \/ TBuildStart \/ TBuildDone \/ TStamp \/ TRun \/ TRunDone \/ TUnlock \/ Silent
+TraceNext == TLock \/ TCheck \/ TReuse \/ TBuildStart \/ TBuildDone \/ TRename \/ TStamp \/ TRun \/ TRunDone \/ TUnlock \/ Silent
 TraceSpec == TraceInit /\ [][TraceNext]_tvars
 
 HighWater == TLCSet(1, IF TLCGet(1) < l THEN l ELSE TLCGet(1))
